@@ -1,6 +1,7 @@
 """Canonical JSON-able observation of a parsed Chart, built from public attributes only."""
 from __future__ import annotations
 
+import enum
 import json
 from datetime import timedelta
 
@@ -22,8 +23,16 @@ def observe_metadata(md) -> dict:
     out = {}
     for f in ALL_FIELDS:
         v = getattr(md, f)
-        if f == "player2" and v is not None and not isinstance(v, (str, int)):
-            v = v.value
+        if f == "player2":
+            # "an enum member": any Enum instance (a str-mixin enum included) shows its value; a bare string or number is not a member
+            if isinstance(v, enum.Enum):
+                v = v.value
+            elif v is not None:
+                v = f"<{type(v).__name__}, not an enum member> {v!r}"
+        elif isinstance(v, enum.Enum):
+            # text and number fields carry the text / number itself: an enum member that merely compares equal to the text renders
+            # and hashes as something else
+            v = f"<enum member {v!r} where the field's own text or number belongs>"
         out[f] = v
     return out
 
